@@ -16,6 +16,22 @@ pub enum Kind {
     Store,
     /// `fetch_add`
     FetchAdd,
+    /// `fetch_sub`
+    FetchSub,
+    /// `swap`
+    Swap,
+    /// `compare_exchange` / `compare_exchange_weak` (the argument is the new value; the result is the previous value)
+    CompareExchange,
+    /// `fetch_update` (reported as one operation; the argument is 0, the result is the previous value)
+    FetchUpdate,
+    /// `fetch_max`
+    FetchMax,
+    /// `fetch_min`
+    FetchMin,
+    /// `fetch_or`
+    FetchOr,
+    /// `fetch_and`
+    FetchAnd,
 }
 
 /// Type of the atomic the operation is performed on.
@@ -96,6 +112,69 @@ impl AtomicUsize {
         r
     }
 
+    /// See `std::sync::atomic::AtomicUsize::fetch_sub`.
+    pub fn fetch_sub(&self, v: usize, ord: Ordering) -> usize {
+        let o = self.op(Kind::FetchSub, ord, v);
+        before(&o);
+        let r = self.0.fetch_sub(v, ord);
+        after(&o, r);
+        r
+    }
+
+    /// See `std::sync::atomic::AtomicUsize::fetch_max`.
+    pub fn fetch_max(&self, v: usize, ord: Ordering) -> usize {
+        let o = self.op(Kind::FetchMax, ord, v);
+        before(&o);
+        let r = self.0.fetch_max(v, ord);
+        after(&o, r);
+        r
+    }
+
+    /// See `std::sync::atomic::AtomicUsize::fetch_min`.
+    pub fn fetch_min(&self, v: usize, ord: Ordering) -> usize {
+        let o = self.op(Kind::FetchMin, ord, v);
+        before(&o);
+        let r = self.0.fetch_min(v, ord);
+        after(&o, r);
+        r
+    }
+
+    /// See `std::sync::atomic::AtomicUsize::swap`.
+    pub fn swap(&self, v: usize, ord: Ordering) -> usize {
+        let o = self.op(Kind::Swap, ord, v);
+        before(&o);
+        let r = self.0.swap(v, ord);
+        after(&o, r);
+        r
+    }
+
+    /// See `std::sync::atomic::AtomicUsize::compare_exchange`.
+    pub fn compare_exchange(&self, current: usize, new: usize, success: Ordering, failure: Ordering) -> Result<usize, usize> {
+        let o = self.op(Kind::CompareExchange, success, new);
+        before(&o);
+        let r = self.0.compare_exchange(current, new, success, failure);
+        after(&o, match r {
+            Ok(x) | Err(x) => x,
+        });
+        r
+    }
+
+    /// See `std::sync::atomic::AtomicUsize::compare_exchange_weak` (never fails spuriously here).
+    pub fn compare_exchange_weak(&self, current: usize, new: usize, success: Ordering, failure: Ordering) -> Result<usize, usize> {
+        self.compare_exchange(current, new, success, failure)
+    }
+
+    /// See `std::sync::atomic::AtomicUsize::fetch_update`.
+    pub fn fetch_update<F: FnMut(usize) -> Option<usize>>(&self, set_order: Ordering, fetch_order: Ordering, f: F) -> Result<usize, usize> {
+        let o = self.op(Kind::FetchUpdate, set_order, 0);
+        before(&o);
+        let r = self.0.fetch_update(set_order, fetch_order, f);
+        after(&o, match r {
+            Ok(x) | Err(x) => x,
+        });
+        r
+    }
+
     /// See `std::sync::atomic::AtomicUsize::load`.
     pub fn load(&self, ord: Ordering) -> usize {
         let o = self.op(Kind::Load, ord, 0);
@@ -133,6 +212,44 @@ impl AtomicBool {
             ord,
             arg,
         }
+    }
+
+    /// See `std::sync::atomic::AtomicBool::swap`.
+    pub fn swap(&self, v: bool, ord: Ordering) -> bool {
+        let o = self.op(Kind::Swap, ord, v as usize);
+        before(&o);
+        let r = self.0.swap(v, ord);
+        after(&o, r as usize);
+        r
+    }
+
+    /// See `std::sync::atomic::AtomicBool::fetch_or`.
+    pub fn fetch_or(&self, v: bool, ord: Ordering) -> bool {
+        let o = self.op(Kind::FetchOr, ord, v as usize);
+        before(&o);
+        let r = self.0.fetch_or(v, ord);
+        after(&o, r as usize);
+        r
+    }
+
+    /// See `std::sync::atomic::AtomicBool::fetch_and`.
+    pub fn fetch_and(&self, v: bool, ord: Ordering) -> bool {
+        let o = self.op(Kind::FetchAnd, ord, v as usize);
+        before(&o);
+        let r = self.0.fetch_and(v, ord);
+        after(&o, r as usize);
+        r
+    }
+
+    /// See `std::sync::atomic::AtomicBool::compare_exchange`.
+    pub fn compare_exchange(&self, current: bool, new: bool, success: Ordering, failure: Ordering) -> Result<bool, bool> {
+        let o = self.op(Kind::CompareExchange, success, new as usize);
+        before(&o);
+        let r = self.0.compare_exchange(current, new, success, failure);
+        after(&o, match r {
+            Ok(x) | Err(x) => x as usize,
+        });
+        r
     }
 
     /// See `std::sync::atomic::AtomicBool::load`.
